@@ -6,6 +6,7 @@ arguments, to the script on integers `tokenScriptI`, which for every configurati
 -/
 import GoZero.Extracted.C03
 import GoZero.C03.LuaTok
+import GoZero.C03.ProofsStore
 namespace GoZero.C03.TieLua
 open GoZero.C03
 open GoZero.C03.LuaT
@@ -111,5 +112,50 @@ theorem tie_tokenLua_model (c : TCfg) (hr : 0 < c.rate) (s : Store) (now n : Nat
       = tokenScript true c s now n := by
   rw [tie_tokenLua_sem, tokenScriptI_is_tokenScript c hr]
 
+
+/-- the two values of a limiter as the integer model sees them -/
+def zOf (s : Store) (k1 k2 : String) : ZBucket :=
+  ⟨(s.get k1).map fun e => (e.val : Int), (s.get k2).map fun e => (e.val : Int)⟩
+
+/-- **The integer model of the driver's `tokenz` sections is the interpreted script**: wherever the store model can hold
+the values (nothing negative is written), `tokenScriptZ` (negative rate / burst / n included) makes the same decision and
+stores the same two values as the script text in the tree (`tie_tokenLua_sem`), with the TTL `ttlZ`. -/
+theorem tokenScriptI_agrees_with_Z (s : Store) (k1 k2 : String) (hk : k1 ≠ k2) (rate cap now req : Int) (s' : Store) (a : Bool)
+    (h : tokenScriptI s k1 k2 rate cap now req = some (s', a)) :
+    (tokenScriptZ rate cap now req (zOf s k1 k2)).2 = a ∧
+    (tokenScriptZ rate cap now req (zOf s k1 k2)).1 = zOf s' k1 k2 ∧
+    (s'.find k1).bind (·.exp) = some (s.clock + (ttlZ rate cap).toNat * 1000) := by
+  unfold tokenScriptI at h
+  by_cases hr : rate = 0
+  · simp [hr] at h
+  · simp only [hr, if_false] at h
+    have hG1 : getNumOr s k1 cap = ((zOf s k1 k2).tok.getD cap) := by
+      unfold getNumOr zOf; cases s.get k1 <;> simp
+    have hG2 : getNumOr s k2 0 = ((zOf s k1 k2).ts.getD 0) := by
+      unfold getNumOr zOf; cases s.get k2 <;> simp
+    rw [hG1, hG2] at h
+    generalize hz : zOf s k1 k2 = z at h ⊢
+    unfold tokenScriptZ
+    generalize hF : min cap (z.tok.getD cap + max 0 (now - z.ts.getD 0) * rate) = F at h ⊢
+    have hT : (max 1 ((cap * 2).fdiv rate)) = ttlZ rate cap := by unfold ttlZ; rw [Int.mul_comm]
+    rw [hT] at h
+    have hTp : 1 ≤ ttlZ rate cap := by unfold ttlZ; omega
+    have hT0 : ¬ ((ttlZ rate cap).toNat = 0) := by omega
+    by_cases hg : (if decide (req ≤ F) = true then F - req else F) < 0 ∨ now < 0
+    · rw [if_pos hg] at h; cases h
+    · rw [if_neg hg] at h
+      simp only [Store.setex, hT0, if_false, Option.some.injEq, Prod.mk.injEq] at h
+      obtain ⟨h1, h2⟩ := h
+      subst h1
+      have hnn : 0 ≤ (if decide (req ≤ F) = true then F - req else F) ∧ 0 ≤ now := by omega
+      refine ⟨h2, ?_, ?_⟩
+      · unfold zOf
+        simp only [get_eq, find_put, clock_put, hk, if_true, if_false, Ne.symm hk, Entry.live]
+        simp
+        obtain ⟨hn1, hn2⟩ := hnn
+        by_cases hd : req ≤ F
+        · simp [hd] at hn1 ⊢; omega
+        · simp [hd] at hn1 ⊢; omega
+      · simp [find_put, hk]
 
 end GoZero.C03.TieLua
